@@ -391,7 +391,7 @@ func (v *cachingValidator) validateJustification(ctx context.Context, valueKey *
 	var expectedVoteValueKey ECChainKey
 	if expectedPhases, ok := expectations[msg.Vote.Phase]; ok {
 		if expected, ok := expectedPhases[msg.Justification.Vote.Phase]; ok {
-			if msg.Justification.Vote.Round != expected.Round && expected.Round != math.MaxUint64 {
+			if msg.Justification.Vote.Round != expected.Round && msg.Vote.Phase != DECIDE_PHASE {
 				return fmt.Errorf("message %v has justification from wrong round %d", msg, msg.Justification.Vote.Round)
 			}
 
